@@ -62,30 +62,24 @@ def slice (value start : Value) (end_ : Option Value) : R Value :=
     Equality is the derived `PartialEq` of `Value`; floats are `NotNan<f64>`, whose equality (and
     hash) identify `0.0` and `-0.0`; two regexes are equal when their sources are. -/
 
-def floatEq (a b : Nat) : Bool := a == b || (a % F64p63 == 0 && b % F64p63 == 0)
-  where F64p63 : Nat := 9223372036854775808
-
 mutual
-  def veq : Value → Value → Bool
-    | .null, .null => true
-    | .bool a, .bool b => a == b
-    | .int a, .int b => a == b
-    | .float a, .float b => floatEq a b
-    | .bytes a, .bytes b => a == b
-    | .ts a, .ts b => a == b
-    | .regex a, .regex b => a == b
-    | .arr a, .arr b => veqList a b
-    | .obj a, .obj b => veqMap a b
-    | _, _ => false
-  def veqList : VList → VList → Bool
-    | .nil, .nil => true
-    | .cons a as, .cons b bs => veq a b && veqList as bs
-    | _, _ => false
-  def veqMap : VMap → VMap → Bool
-    | .nil, .nil => true
-    | .cons k a as, .cons l b bs => k == l && veq a b && veqMap as bs
-    | _, _ => false
+  /-- canonical representative of a value under `PartialEq`: `-0.0` becomes `0.0`
+      (`NotNan<f64>` compares the numbers; NaN does not occur). -/
+  def norm : Value → Value
+    | .float b => .float (if b % 9223372036854775808 = 0 then 0 else b)
+    | .arr xs => .arr (normList xs)
+    | .obj m => .obj (normMap m)
+    | v => v
+  def normList : VList → VList
+    | .nil => .nil
+    | .cons v vs => .cons (norm v) (normList vs)
+  def normMap : VMap → VMap
+    | .nil => .nil
+    | .cons k v m => .cons k (norm v) (normMap m)
 end
+
+/-- `Value == Value` in Rust (derived `PartialEq`). -/
+def veq (a b : Value) : Bool := decide (norm a = norm b)
 
 /-- `seen` = the values kept so far. -/
 def uniqueGo (seen : List Value) : List Value → List Value
